@@ -251,7 +251,8 @@ theorem C13_through_deps (F : Flags) (o : Obs) (x : Act) (r : Res) (y : Act) (ef
     (h : stepLocal F o x (.depsDone r) = some (y, eff)) :
     y.res = r ∧ y.phase = .finished ∧ y.started = x.started ∧ ∃ rs, o.deps () = some rs ∧ rs.contains r = true := by
   steplocal_cases h
-  all_goals (simp_all [Act.stop])
+  all_goals (simp_all [Act.stopDeps])
+  exact depErr_not_exit _ _ hex
 
 /-! ## non-vacuity -/
 
